@@ -25,7 +25,7 @@ ASSUMPTIONS = ["backward-error bound c*max(m,n)*eps*||L||_F*||U||_F with c = 100
 SHARDS = {"quick": 8, "thorough": 16}
 DECIDING = ["P_is_permutation", "L_unit_lower", "multipliers_le_1", "U_upper", "PA_eq_LU", "A_eq_LU_two_output",
             "two_output_L_is_row_permuted", "singular_loud_or_exact"]
-MUST_REACH = ["perm:noninvolutive", "perm:identity", "singular:evaluated", "singular:exact_step:tall:last",
+MUST_REACH = ["history:inplace_update_then_call", "history:views_of_previous_argument", "perm:noninvolutive", "perm:identity", "singular:evaluated", "singular:exact_step:tall:last",
               "singular:exact_step:square:last", "singular:exact_step:wide:last", "singular:exact_step:tall:first"]
 
 C = 100.0
@@ -54,6 +54,9 @@ def cases(tier, seed):
         for cls in ("gauss", "ties", "layout") if tier == "quick" else ("gauss", "ties", "layout", "int", "pure_imag"):
             out.append({"kind": "random", "cls": "random:" + cls, "entry": cls, "idx": idx, "seed": seed, "maxd": 8, "dims": list(dims)})
             idx += 1
+    for k in range(12 if tier == "quick" else 80):
+        out.append({"kind": "history", "cls": "history", "idx": idx, "seed": seed})
+        idx += 1
     for k, sc in enumerate(("zero_column", "zero_matrix", "dependent_columns", "zero_1x1", "zero_row", "dependent_rows_wide", "zero_later_column")):
         for rep in range(3 if tier == "quick" else 12):
             out.append({"kind": "singular", "cls": "singular:" + sc, "sing": sc, "idx": rep, "seed": seed})
@@ -71,7 +74,45 @@ def cases(tier, seed):
 
 
 def run_case(spec, ctx, R):
-    {"perm": _perm, "random": _random, "singular": _singular}[spec["kind"]](spec, ctx, R)
+    {"perm": _perm, "random": _random, "singular": _singular, "history": _history}[spec["kind"]](spec, ctx, R)
+
+
+def _history(spec, ctx, R):
+    """Call histories inside one process: the same array object factorised again after the caller updated it in place, views of the
+    previous argument that share its buffer (transpose, reversed rows), both output modes in sequence, the previous factors overwritten."""
+    rng = gen.rng_for(spec["seed"], "c07hist", spec["idx"])
+    n = int(rng.integers(2, 7))
+    A = refq.randq(rng, n, n)
+    ctx.distinct("history", A)
+    judge(ctx, R, A, "history:first_call", ["history"], direct=True)
+    # in-place update of the same object (rows swapped, one entry changed, then everything rescaled)
+    c = refq.fa(A)
+    c[[0, n - 1]] = c[[n - 1, 0]].copy()
+    c[n // 2, 0] += np.array([1.5, -0.5, 0.25, 2.0])
+    judge(ctx, R, A, "history:after_inplace_update", ["history"], direct=True)
+    c *= -3.0
+    judge(ctx, R, A, "history:after_inplace_rescale", ["history"], direct=True)
+    ctx.hit("history:inplace_update_then_call")
+    # views that share the buffer of the previous argument
+    B = refq.randq(rng, n, n)
+    judge(ctx, R, B, "history:parent", ["history"], direct=True)
+    judge(ctx, R, B.T, "history:transposed_view_of_previous", ["history"], direct=True)
+    judge(ctx, R, B[::-1], "history:reversed_view_of_previous", ["history"], direct=True)
+    judge(ctx, R, B[:, ::-1], "history:column_reversed_view_of_previous", ["history"], direct=True)
+    if n >= 3:
+        judge(ctx, R, B[: n - 1, : n - 1], "history:leading_block_of_previous", ["history"], direct=True)
+        judge(ctx, R, B[1:, 1:], "history:trailing_block_of_previous", ["history"], direct=True)
+    ctx.hit("history:views_of_previous_argument")
+    # the caller overwrites the factors it got back, then asks again
+    D = R.decomp
+    try:
+        L, U, P = D.quaternion_lu(A, return_p=True)
+        refq.fa(L)[...] = 9.0
+        refq.fa(U)[...] = -9.0
+        refq.fa(P)[...] = 0.0
+    except Exception:
+        pass
+    judge(ctx, R, A, "history:after_factors_overwritten", ["history"], direct=True)
 
 
 def _perm_matrix(pi):
@@ -132,16 +173,17 @@ def _exact_deficient(rng, m, n, c, variant):
     return refq.qa(np.ascontiguousarray(A))
 
 
-def judge(ctx, R, A, site, tags=(), expect_pi=None, unique=False):
-    """Run both output modes on A and judge all structural / reconstruction clauses."""
+def judge(ctx, R, A, site, tags=(), expect_pi=None, unique=False, direct=False):
+    """Run both output modes on A and judge all structural / reconstruction clauses.  direct=True hands the caller's array object
+    itself to the routine (histories: object identity and buffer address matter), otherwise a fresh copy per call."""
     D = R.decomp
     m, n = A.shape
     N = min(m, n)
     nrmA = refq.fro(A)
     A0 = refq.fa(A).copy()
     try:
-        L, U, P = D.quaternion_lu(A.copy(), return_p=True)
-        L2, U2 = D.quaternion_lu(A.copy())
+        L, U, P = D.quaternion_lu(A if direct else A.copy(), return_p=True)
+        L2, U2 = D.quaternion_lu(A if direct else A.copy())
     except Exception as e:
         ctx.check("unexpected_exception", False, site=site, tags=tags, detail={"exception": repr(e), "shape": [m, n]})
         return None
